@@ -52,16 +52,18 @@ def check(pid, tier, seed):
             if mode < 0.5:
                 # exactly one file violates one active rule
                 f = rnd.choice(K)
-                rule = rnd.choice([k for k in ("owner", "group", "nosym") if fl[k]] + (["perms"] if fl["perms"] == 2 else []))
-                attrs[f] = ("foreign" if rule == "owner" else "ok", "foreign" if rule == "group" else "ok", rule == "nosym", "bad" if rule == "perms" else "ok")
+                rule = rnd.choice([k for k in ("owner", "group", "nosym") if fl[k]] + (["perms", "dperms"] if fl["perms"] == 2 else []))
+                attrs[f] = ("foreign" if rule == "owner" else "ok", "foreign" if rule == "group" else "ok", rule == "nosym", "bad" if rule == "perms" else "ok",
+                            "bad" if rule == "dperms" else "ok")      # (a bad directory is bad for all files in it: completed by scenario_script)
             elif mode < 0.85:
                 for f in K:
                     lk = rnd.random() < 0.3
-                    attrs[f] = (rnd.choice(["ok", "ok", "foreign"]), rnd.choice(["ok", "ok", "foreign"]), lk, "bad" if (not lk and rnd.random() < 0.25) else "ok")
+                    attrs[f] = (rnd.choice(["ok", "ok", "foreign"]), rnd.choice(["ok", "ok", "foreign"]), lk, "bad" if (not lk and rnd.random() < 0.25) else "ok",
+                                "bad" if rnd.random() < 0.1 else "ok")
             else:
                 # attributes that only violate INACTIVE rules: must read as usual
                 for f in K:
-                    attrs[f] = ("ok" if fl["owner"] else "foreign", "ok" if fl["group"] else "foreign", not fl["nosym"], "ok" if fl["perms"] == 2 else "bad")
+                    attrs[f] = ("ok" if fl["owner"] else "foreign", "ok" if fl["group"] else "foreign", not fl["nosym"], "ok" if fl["perms"] == 2 else "bad", "ok" if fl["perms"] == 2 else "bad")
             scen.append((x, ent, attrs, fl))
         if len(scen) >= budget:
             break
@@ -86,7 +88,8 @@ def check(pid, tier, seed):
         events += scenario_events(x, ent, out, paths, K, attrs=attrs, flags=fl, reset_reread=True, use_cb=use_cb, idx=i)
         n += 1
         viol = [f for f in K if (fl["owner"] and attrs.get(f, ("ok",) * 3)[0] == "foreign") or (fl["group"] and attrs.get(f, ("ok",) * 3)[1] == "foreign") or (fl["nosym"] and attrs.get(f, ("ok", "ok", False))[2])
-                or (fl["perms"] == 2 and attrs.get(f, ("ok", "ok", False, "ok"))[3] == "bad" and not attrs[f][2])]
+                or (fl["perms"] == 2 and attrs.get(f, ("ok", "ok", False, "ok"))[3] == "bad" and not attrs[f][2])
+                or (fl["perms"] == 2 and (tuple(attrs.get(f, ())) + ("ok",) * 5)[4] == "bad")]
         if len(K) >= 2 and len(viol) == 1:
             nn += 1
 
@@ -97,10 +100,10 @@ def check(pid, tier, seed):
     rc = verdict.finish()
     cov = {"states": mc.distinct, "transitions": mc.generated, "traces_validated_against_impl": n - bad,
            "evaluations": n * 2, "distinct_nontrivial": nn,
-           "rule": "MC_Security: 2-layer trees x every {matching,foreign} owner/group x {regular,symlink} x {ok,bad} permission bits assignment to the consulted files x all 54 settings states reached by the setter actions (owner / group: none, usual id, another id; links; permission masks none / lenient / strict; reset), action property Independent. Traces: %d scenarios over 3-layer (econf_readConfigWithCallback) and 3-layer trees with two drop-in directories per layer (CONFIG_DIRS list, econf_set_conf_dirs) and 2-layer trees (econf_readFile, econf_readFileWithCallback on single files; econf_readDirs, econf_readDirsWithCallback, econf_readDirsHistory(+WithCallback), econf_readConfig(+WithCallback) with PARSING_DIRS; the directory arguments also as RELATIVE names) x the 7 non-empty flag combinations (together with no / a satisfied / a strict econf_requirePermissions requirement - file mode 0640 against the mask 004) x attribute vectors {exactly one file violating one active rule, random vectors, vectors violating only inactive rules}; files are lchown'ed to uid/gid %d resp. replaced by symbolic links; each scenario = setter calls in varying order with overwritten calls mixed in, read, econf_reset_security_settings, read again. Trace_Layers folds the RECORDED setter calls into the settings in force (Security!ApplySetters: every setter changes its own setting only, the last call counts), computes the violations from the logged attributes and accepts only the code of the first failing file, no object, no callback for the refused file, full content after reset. non-trivial = >= 2 consulted files of which exactly one violates an active rule." % (n, p_layers.FOREIGN),
+           "rule": "MC_Security: 2-layer trees x every {matching,foreign} owner/group x {regular,symlink} x {ok,bad} permission bits assignment to the consulted files x all 54 settings states reached by the setter actions (owner / group: none, usual id, another id; links; permission masks none / lenient / strict; reset), action property Independent. Traces: %d scenarios over 3-layer (econf_readConfigWithCallback) and 3-layer trees with two drop-in directories per layer (CONFIG_DIRS list, econf_set_conf_dirs) and 2-layer trees (econf_readFile, econf_readFileWithCallback on single files; econf_readDirs, econf_readDirsWithCallback, econf_readDirsHistory(+WithCallback), econf_readConfig(+WithCallback) with PARSING_DIRS; the directory arguments also as RELATIVE names) x the 7 non-empty flag combinations (together with no / a satisfied / a strict econf_requirePermissions requirement - file mode 0640 against the file mask 004, directory mode 0750 against the directory mask 001) x attribute vectors {exactly one file violating one active rule, random vectors, vectors violating only inactive rules}; files are lchown'ed to uid/gid %d resp. replaced by symbolic links; each scenario = setter calls in varying order with overwritten calls mixed in, read, econf_reset_security_settings, read again. Trace_Layers folds the RECORDED setter calls into the settings in force (Security!ApplySetters: every setter changes its own setting only, the last call counts), computes the violations from the logged attributes and accepts only the code of the first failing file, no object, no callback for the refused file, full content after reset. non-trivial = >= 2 consulted files of which exactly one violates an active rule." % (n, p_layers.FOREIGN),
            "samples": events[:3], "exhaustive": False, "trusted_base": ["TLC 1.8.0", "gcc ASan/UBSan", "drv.c (runs as root)"]}
     core.write_evidence(pid, tier, seed, "model_checking", cov,
-                        ["checks run as root; foreign = uid/gid 54321", "econf_requirePermissions is modelled for the file mask only (the directory mask is always satisfied here; C12 compares the entry points under an unsatisfied directory mask)", "process-wide flags are reset after every scenario"],
+                        ["checks run as root; foreign = uid/gid 54321", "econf_requirePermissions is beyond the text of the property; modelled with one strict pair of masks (file 004 / directory 001 against modes 0640 / 0750)", "process-wide flags are reset after every scenario"],
                         time.time() - t0, len(verdict.violations))
     return rc
 
